@@ -83,6 +83,8 @@ def main(tier, replay_payload=None):
         return conc.replay_schedule(W_ARGS, fn, p["k"], p["log"], p["bound"], p["clauses"][0])
     run.replayer = replayer
     outs = conc.explore_scenarios(W_ARGS, sf, bound)
+    from engine import battery
+    battery.validate(run)
     fold(run, outs, "LIN:", bound)
     if tier == "thorough":
         outs3 = conc.explore_scenarios(W_ARGS, scenarios_for(tier, triples=True), 1)
